@@ -208,7 +208,11 @@ func (x *g) ws() {
 		case 1:
 			x.sb.WriteString("\t")
 		case 2:
-			x.sb.WriteString("/* c \n * é */")
+			if x.rng.Intn(2) == 0 {
+				x.sb.WriteString("/* c \n * é \n\n   d */") // several line feeds, something may follow on the closing line
+			} else {
+				x.sb.WriteString("/* c \n * é */")
+			}
 		case 3:
 			x.sb.WriteString("// é c\n")
 		case 4:
@@ -267,7 +271,11 @@ func (x *g) arg(pattern bool) {
 	case 0:
 		x.sb.WriteString(x.word())
 	case 1:
-		x.sb.WriteString("'s q\n \\n \"'")
+		if x.rng.Intn(2) == 0 {
+			x.sb.WriteString("'s\nq\n\nr é'")
+		} else {
+			x.sb.WriteString("'s q\n \\n \"'")
+		}
 	default:
 		x.dq(pattern)
 		for x.rng.Intn(4) == 0 {
